@@ -184,7 +184,7 @@ End Bridge.
 (* ---------------------------------------------------------------------------------------------- *)
 (* one column c of the state through the loop *)
 Section Column.
-Variables (n C num_iter : nat) (mm : cols F -> cols F) (tol brk : F) (n_extra : nat).
+Variables (n C num_iter : nat) (mm : cols F -> cols F) (tol : F -> bool) (brk : F) (n_extra : nat).
 Variable c : nat.
 Hypothesis hc : (c < C)%N.
 
@@ -422,6 +422,33 @@ move=> [|[|i]] [|[|j]] // _ _.
 - by rewrite init_q1 H11.
 Qed.
 
+(* the state in which the repaired source stops after the first step *)
+Notation sts := (lz_init_stop ArR n C num_iter mm).
+
+Lemma stop_q0 init : qv (sts init) 0 = i_q0 init.
+Proof. by rewrite /qv /lz_init_stop /= qrow_qset /= Ecdiv Ecnorm. Qed.
+
+Lemma stop_alpha init : al (sts init) 0 = i_a init.
+Proof.
+rewrite /al /lz_init_stop /= tget_tset /= Ecdot /i_a /i_w /i_q0 /i_v.
+by rewrite Ecdiv Ecnorm.
+Qed.
+
+Lemma q0_unit init : i_v init != 0 -> dotv (i_q0 init) (i_q0 init) = 1.
+Proof. by move=> Hv; apply: normalize_unit; rewrite dotv_eq0. Qed.
+
+Lemma stop_ON init : i_v init != 0 -> ON 1 (sts init).
+Proof. by move=> Hv [|i] [|j] // _ _; rewrite stop_q0 q0_unit. Qed.
+
+Lemma init_ON1 init : i_v init != 0 -> ON 1 (st0 init).
+Proof. by move=> Hv [|i] [|j] // _ _; rewrite init_q0 q0_unit. Qed.
+
+Lemma beta0_col init : vget ArR (lz_beta0 ArR n C mm init) c = i_b init.
+Proof.
+rewrite /lz_beta0 Ecnorm Ecsub Ecscale_l.
+by rewrite Ecdot /i_b /i_r1 /i_a /i_w /i_q0 /i_v Ecdiv Ecnorm.
+Qed.
+
 (* the entries of a symmetric banded t_mat in terms of its diagonal (al) and super-diagonal (be) *)
 Lemma T_entry st i j : t_sym ArR st.2 -> t_band ArR st.2 ->
   tget ArR st.2 i j c = (if i.+1 == j then be st i else 0) + (if i == j then al st j else 0)
@@ -603,6 +630,14 @@ have -> : Am *m i_q0 init = i_w init.
 by rewrite addrC subrK.
 Qed.
 
+Lemma A_q0 init : Am *m i_q0 init = i_w init.
+Proof. by rewrite /i_w mm_lin Ecdiv Ecnorm. Qed.
+
+Lemma stop_al init :
+  al (lz_init_stop ArR n C num_iter mm init) 0
+  = dotv (qv (lz_init_stop ArR n C num_iter mm init) 0) (Am *m qv (lz_init_stop ArR n C num_iter mm init) 0).
+Proof. by rewrite stop_alpha stop_q0 A_q0. Qed.
+
 End Sym.
 
 End Column.
@@ -610,11 +645,11 @@ End Column.
 (* ---------------------------------------------------------------------------------------------- *)
 (* the exits of the loop (lines 131-147) in exact arithmetic, all columns together *)
 Section Exit.
-Variables (n C num_iter : nat) (mm : cols F -> cols F) (tol brk : F) (n_extra : nat).
+Variables (n C num_iter : nat) (mm : cols F -> cols F) (tol : F -> bool) (brk : F) (n_extra : nat).
 Variable Am : nat -> 'M[F]_n.
 Hypothesis mm_lin : forall c X, (c < C)%N -> cv n (mm X) c = Am c *m cv n X c.
 Hypothesis Am_sym : forall c, (c < C)%N -> (Am c)^T = Am c.
-Hypothesis tol_ge0 : 0 <= tol.
+Hypothesis tol0 : tol 0 = false.            (* the extra-pass test is not triggered by an inner product that is 0 *)
 Hypothesis extra_gt0 : (0 < n_extra)%N.
 
 Notation body := (lz_body ArR n C num_iter mm tol brk n_extra).
@@ -627,7 +662,7 @@ Definition rho (c k : nat) (st : lz_state F) : 'cV[F]_n :=
 Lemma all_mkseq (T : Type) (p : pred T) (f : nat -> T) m : (forall i, (i < m)%N -> p (f i)) -> all p (mkseq f m).
 Proof. by move=> H; rewrite /mkseq all_map; apply/allP => i; rewrite mem_iota add0n /= => hi; exact: H. Qed.
 
-Lemma extra_none qm k R ip : ~~ any_gt ArR tol ip -> extra_passes ArR n C tol n_extra qm k R ip = (R, true).
+Lemma extra_none qm k R ip : ~~ any_gt tol ip -> extra_passes ArR n C tol n_extra qm k R ip = (R, true).
 Proof. by case: n_extra extra_gt0 => // f _ /= ->. Qed.
 
 Lemma body_r3_col c k qm tm : (c < C)%N ->
@@ -648,7 +683,7 @@ Proof.
 case: st => qm tm hk Hon; rewrite /lz_body hk.
 set r := lz_r _ _ _ _ _ _ _; set alpha := lz_alpha _ _ _ _ _ _; set r2 := lz_r2 _ _ _ _ _ _ _.
 set r3 := cdiv _ _ _ r2 _.
-have Hip : ~~ any_gt ArR tol (inner_products ArR n C qm k r3).
+have Hip : ~~ any_gt tol (inner_products ArR n C qm k r3).
   rewrite /any_gt -all_predC /inner_products; apply: all_mkseq => i hi /=.
   rewrite -all_predC /cdot; apply: all_mkseq => c hc /=.
   have [E3 _] := @body_r3_col c k qm tm hc.
@@ -656,7 +691,7 @@ have Hip : ~~ any_gt ArR tol (inner_products ArR n C qm k r3).
   have Hon' : forall i j, (i <= k)%N -> (j <= k)%N ->
        dotv (qv n c (qm, tm) i) (qv n c (qm, tm) j) = (i == j)%:R.
     by move=> i' j' hi' hj'; apply: Hon.
-  by rewrite /s_r2 (proj_orth Hon') // mulr0 -leNgt.
+  by rewrite /s_r2 (proj_orth Hon') // mulr0 tol0.
 rewrite (extra_none _ _ _ Hip) /= orbF => Hb c hc.
 have [_ Eb] := @body_r3_col c k qm tm hc.
 rewrite -Eb leNgt; apply: contra Hb => Hlt.
@@ -772,12 +807,14 @@ Let n := g_n g.
 Let B := prodn (g_batch g).
 Let C := (B * nvec)%N.
 Let num_iter := minn (g_max_iter g) n.
-Let r := lz_loop ArR n C num_iter (g_mm g) (g_tol g) (g_brk g) (g_extra g) num_iter.-1 1
-                 (lz_init ArR n C num_iter (g_mm g) init).
+Let r := lz_final ArR g nvec init.
 Let m := r.2.+1.
+Notation loopr := (lz_loop ArR n C num_iter (g_mm g) (lz_gt ArR g) (g_brk g) (g_extra g) num_iter.-1 1
+                           (lz_init ArR n C num_iter (g_mm g) init)).
+Notation stopr := (lz_init_stop ArR n C num_iter (g_mm g) init).
 
 Lemma final_facts :
-  [/\ (1 < num_iter)%N, o_m o = m,
+  [/\ ((if g_first_guard g then 0 else 1) < num_iter)%N, o_m o = m,
       o_Q o = mkseq (fun idx => mtab n m (fun x i => vget ArR (qget r.1.1 i (col_of B nvec idx)) x)) (nvec * B) &
       o_T o = mkseq (fun idx => mtab m m (fun i j => tget ArR r.1.2 i j (col_of B nvec idx))) (nvec * B)].
 Proof.
@@ -785,6 +822,12 @@ have [nvec' [init' /= [Hs Hn Ho]]] := lanczos_tridiag_ok Hrun.
 move: Hs; rewrite Hstart => -[E1 E2]; rewrite -E1 -E2 in Hn Ho.
 by rewrite Ho.
 Qed.
+
+(* either the repaired source stopped after the first step, or the loop ran *)
+Lemma final_cases :
+  (lz_stop ArR g nvec init /\ r = (stopr, 0%N))
+  \/ [/\ ~~ lz_stop ArR g nvec init, (1 < num_iter)%N & r = loopr].
+Proof. by have [Hn _ _ _] := final_facts; exact: lz_final_cases. Qed.
 
 Lemma final_mxQ idx (x : 'I_n) (i : 'I_m) : (idx < nvec * B)%N ->
   mx_of n m (nth [::] (o_Q o) idx) x i = qv n (col_of B nvec idx) r.1 i x ord0.
@@ -810,14 +853,15 @@ Lemma final_ON idx : (idx < nvec * B)%N ->
   ON n (col_of B nvec idx) m r.1.
 Proof.
 move=> hidx Hv HG.
-have [Hn _ _ _] := final_facts.
 have hc := col_of_lt hidx.
+move: HG (@final_mxT idx); rewrite /m.
+case: final_cases => [[_ ->]|[_ Hn ->]] /= HG HT; first exact: stop_ON.
 have f0 : (0 < num_iter.-1)%N by lia.
 have Hk : (1 + num_iter.-1 = num_iter)%N by lia.
-apply: (@loop_ON n C num_iter (g_mm g) (g_tol g) (g_brk g) (g_extra g) _ hc num_iter.-1 1 _ f0 Hk (ltn0Sn 0)).
+apply: (@loop_ON n C num_iter (g_mm g) (lz_gt ArR g) (g_brk g) (g_extra g) _ hc num_iter.-1 1 _ f0 Hk (ltn0Sn 0)).
   exact: init_ON.
-move=> j hj; rewrite /be -final_mxT //; first exact: HG.
-by move: hj; rewrite -/r -/m => hj; lia.
+move=> j hj; rewrite /be -HT //; first exact: HG.
+by lia.
 Qed.
 
 Lemma final_colQ idx (j : 'I_m) : (idx < nvec * B)%N ->
@@ -825,21 +869,7 @@ Lemma final_colQ idx (j : 'I_m) : (idx < nvec * B)%N ->
 Proof. by move=> hidx; apply/colP => x; rewrite mxE final_mxQ. Qed.
 
 Lemma final_tm_inv : t_sym ArR r.1.2 /\ t_band ArR r.1.2.
-Proof.
-have [Hn _ _ _] := final_facts.
-have f0 : (0 < num_iter.-1)%N by lia.
-have Hk : (1 + num_iter.-1 = num_iter)%N by lia.
-by apply: loop_tm_inv => //; exact: init_tm_inv.
-Qed.
-
-Lemma final_range : (0 < r.2)%N.
-Proof.
-have [Hn _ _ _] := final_facts.
-have f0 : (0 < num_iter.-1)%N by lia.
-have Hk : (1 + num_iter.-1 = num_iter)%N by lia.
-by have /andP[] := @loop_range _ ArR n C num_iter (g_mm g) (g_tol g) (g_brk g) (g_extra g) num_iter.-1 1
-                     (lz_init ArR n C num_iter (g_mm g) init) f0 Hk (ltn0Sn 0).
-Qed.
+Proof. by have [Hn _ _ _] := final_facts; exact: final_tm_inv_gen. Qed.
 
 Section Proj.
 Variable idx : nat.
@@ -858,17 +888,19 @@ Let bet (j : nat) := be c r.1 j.
 Lemma final_AR :
   [/\ ON n c m r.1, @AR n c Am m r.1 & alf r.2 = dotv (q r.2) (Am *m q r.2)].
 Proof.
-have [Hn _ _ _] := final_facts.
 have hc := col_of_lt hidx.
+move: HG (fun i j => @final_mxT idx i j hidx); rewrite /alf /q /m.
+case: final_cases => [[_ ->]|[_ Hn ->]] /= HG' HT.
+  split; [exact: stop_ON | by [] | exact: (stop_al num_iter hc mm_lin)].
 have f0 : (0 < num_iter.-1)%N by lia.
 have Hk : (1 + num_iter.-1 = num_iter)%N by lia.
-have [] := @loop_AR n C num_iter (g_mm g) (g_tol g) (g_brk g) (g_extra g) _ hc Am mm_lin Am_sym num_iter.-1 1
+have [] := @loop_AR n C num_iter (g_mm g) (lz_gt ArR g) (g_brk g) (g_extra g) _ hc Am mm_lin Am_sym num_iter.-1 1
              (lz_init ArR n C num_iter (g_mm g) init) f0 Hk (ltn0Sn 0).
   split; first by have [] := @init_tm_inv _ ArR n C num_iter (g_mm g) init.
   by move=> HG2; split; [exact: init_ON | exact: init_AR].
 move=> _; apply.
-move=> j hj; rewrite /be -final_mxT //; first exact: HG.
-by move: hj; rewrite -/r -/m => hj; lia.
+move=> j hj; rewrite /be -HT //; first exact: HG'.
+by lia.
 Qed.
 
 Lemma final_Tentry (i j : nat) : (i < m)%N -> (j < m)%N ->
@@ -884,7 +916,6 @@ Lemma final_projection :
   = mx_of m m (nth [::] (o_T o) idx).
 Proof.
 have [Hon Har Hal] := final_AR.
-have k0 := final_range.
 apply/matrixP => i j.
 rewrite mulmx_entry_dotv !final_colQ // -/c -/(q i) -/(q j) [RHS]mxE final_Tentry //.
 have hi := ltn_ord i; have hj := ltn_ord j.
@@ -907,6 +938,7 @@ have [Ei|Ni] := eqVneq (nat_of_ord i) (nat_of_ord j).
   by rewrite add0r Ei Ej.
 rewrite addr0 -dotv_mulmx_sym // dotvC Ej.
 have hi' : (i < r.2)%N by move: hi Ni; rewrite Ej /m; lia.
+have k0 : (0 < r.2)%N by lia.
 have Hon' : ON n c r.2.+1 r.1 by [].
 have Har' : @AR n c Am r.2.+1 r.1 by [].
 by rewrite (AR_dot (col_of_lt hidx) k0 Hon' Har' hi').
@@ -963,6 +995,9 @@ Hypothesis HG : forall idx, (idx < nvec * B)%N ->
   forall j, (j.+1 < m)%N -> mget ArR (nth [::] (o_T o) idx) j j.+1 != 0.
 Hypothesis Hearly : (m < num_iter)%N.
 
+Lemma gt0_false : lz_gt ArR g 0 = false.
+Proof. by rewrite /lz_gt /=; case: (g_abs g); rewrite ?normr0 ltNge tol_ge0. Qed.
+
 Lemma final_exit idx (j : 'I_m) : (idx < nvec * B)%N -> j.+1 = m ->
   let c := col_of B nvec idx in
   let rho_ := col j (Am c *m mx_of n m (nth [::] (o_Q o) idx)
@@ -970,8 +1005,34 @@ Lemma final_exit idx (j : 'I_m) : (idx < nvec * B)%N -> j.+1 = m ->
   dotv rho_ rho_ <= (g_brk g) ^+ 2.
 Proof.
 move=> hidx Ej /=.
-have [Hn _ _ _] := final_facts.
 have hc := col_of_lt hidx.
+have [Hs _] := final_tm_inv.
+have Ej' : nat_of_ord j = r.2 by move: Ej; rewrite /m; lia.
+(* the last column of A Q - Q T in terms of the final state *)
+have -> : col j (Am (col_of B nvec idx) *m mx_of n m (nth [::] (o_Q o) idx)
+                 - mx_of n m (nth [::] (o_Q o) idx) *m mx_of m m (nth [::] (o_T o) idx))
+          = Am (col_of B nvec idx) *m qv n (col_of B nvec idx) r.1 r.2
+            - ((if r.2 is j'.+1 then be (col_of B nvec idx) r.1 j' *: qv n (col_of B nvec idx) r.1 j' else 0)
+               + al (col_of B nvec idx) r.1 r.2 *: qv n (col_of B nvec idx) r.1 r.2).
+  rewrite linearB /= !col_mul (final_QT_col hidx); last exact: Hv.
+  by rewrite (final_colQ _ hidx) Ej' ltnn addr0.
+move: Hearly HG Hs (@final_mxT); rewrite /m.
+case: final_cases => [[Hst ->]|[_ Hn ->]] /= Hearly' HG' Hs' HT.
+  (* stopped after the first step: the residual is r_1 = A q_0 - alpha_0 q_0, of norm beta_0 <= threshold *)
+  have Hb : ~~ has (fun b => g_brk g < `|b|) (lz_beta0 ArR n C (g_mm g) init).
+    move: Hst; rewrite /lz_stop -/n -/num_iter => /andP[_].
+    have -> : (num_iter < 2)%N = false by lia.
+    by [].
+  have Hbc : `|i_b n C (g_mm g) (col_of B nvec idx) init| <= g_brk g.
+    rewrite -(@beta0_col n C (g_mm g) (col_of B nvec idx) hc init) leNgt; apply: contra Hb => Hlt.
+    apply/hasP; exists (vget ArR (lz_beta0 ArR n C (g_mm g) init) (col_of B nvec idx)) => //.
+    by rewrite /vget mem_nth // /lz_beta0 size_mkseq.
+  rewrite add0r (@stop_q0 n C num_iter (g_mm g) _ hc init) (@stop_alpha n C num_iter (g_mm g) _ hc init).
+  rewrite (@A_q0 n C (g_mm g) _ hc _ (fun X => mm_lin X hc) init) -/(i_r1 n C (g_mm g) (col_of B nvec idx) init).
+  have -> : dotv (i_r1 n C (g_mm g) (col_of B nvec idx) init) (i_r1 n C (g_mm g) (col_of B nvec idx) init)
+            = (i_b n C (g_mm g) (col_of B nvec idx) init) ^+ 2.
+    by rewrite /i_b sqr_sqrtr // dotv_ge0.
+  by apply: sqr_le_brk => //; rewrite /i_b sqrtr_ge0.
 have f0 : (0 < num_iter.-1)%N by lia.
 have Hk : (1 + num_iter.-1 = num_iter)%N by lia.
 have Hinit : forall c, (c < C)%N ->
@@ -981,22 +1042,18 @@ have Hinit : forall c, (c < C)%N ->
   move=> c hc'; split; first by have [] := @init_tm_inv _ ArR n C num_iter (g_mm g) init.
   move=> HG2; split; first exact: init_ON (Hv hc') HG2.
   exact: (init_AR hc' (fun X => mm_lin X hc') (Hv hc') HG2).
-have HGall : forall c, (c < C)%N -> G c r.2.+1 r.1.
+set rr := lz_loop _ _ _ _ _ _ _ _ _ _ _ in Hearly' HG' Hs' HT *.
+have HGall : forall c, (c < C)%N -> G c rr.2.+1 rr.1.
   move=> c hc' jj hjj.
   have [idx' hidx' Ec] := col_of_surj hc'.
-  by rewrite /be -Ec -final_mxT //; [exact: HG | move: hjj; rewrite -/m; lia].
-have := @loop_exit n C num_iter (g_mm g) (g_tol g) (g_brk g) (g_extra g) Am mm_lin Am_sym tol_ge0 extra_gt0
-          num_iter.-1 1 (lz_init ArR n C num_iter (g_mm g) init) f0 Hk (ltn0Sn 0) Hinit HGall Hearly _ hc.
-have k0 := final_range.
-have [Hs _] := final_tm_inv.
-have Ej' : nat_of_ord j = r.2 by move: Ej; rewrite /m; lia.
-have -> : col j (Am (col_of B nvec idx) *m mx_of n m (nth [::] (o_Q o) idx)
-                 - mx_of n m (nth [::] (o_Q o) idx) *m mx_of m m (nth [::] (o_T o) idx))
-          = rho Am (col_of B nvec idx) r.2 r.1; last by [].
-rewrite linearB /= !col_mul (final_QT_col hidx); last exact: Hv.
-rewrite (final_colQ _ hidx) Ej' ltnn addr0 /rho.
-case: r.2 k0 => [//|k'] _ /=.
-by rewrite opprD addrA Hs.
+  by rewrite /be -Ec -HT //; [exact: HG' | lia].
+have := @loop_exit n C num_iter (g_mm g) (lz_gt ArR g) (g_brk g) (g_extra g) Am mm_lin Am_sym gt0_false extra_gt0
+          num_iter.-1 1 (lz_init ArR n C num_iter (g_mm g) init) f0 Hk (ltn0Sn 0) Hinit HGall Hearly' _ hc.
+have /andP[k0 _] := @loop_range _ ArR n C num_iter (g_mm g) (lz_gt ArR g) (g_brk g) (g_extra g) num_iter.-1 1
+                     (lz_init ArR n C num_iter (g_mm g) init) f0 Hk (ltn0Sn 0).
+rewrite -/rr in k0 *.
+rewrite /rho; case: rr.2 k0 => [//|k'] _ /=.
+by rewrite opprD addrA Hs'.
 Qed.
 
 End ExitFinal.
